@@ -272,8 +272,10 @@ theorem accept_norm (strict : Bool) : (ty : Ty) → (v : Val) → Accepts strict
           ⟨conf_pos t a c hac, fun fuel rest hfa => accept_norm strict t a htt (hvx a ha) (hlen.2 a ha) c hac fuel rest hfa⟩
       simp only [List.length_append] at hf
       have hh1 := ListHdr_length_pos hh
-      rw [List.append_assoc, rList_ListHdr _ _ hlen.1 hh, ← typeOf_eq t htt]
-      simp only [Res.bind, hnt, Bool.false_eq_true, if_false, bne_self_eq_false]
+      obtain ⟨t', hrd, ht'⟩ := rList_ListHdr _ _ hlen.1 hh (chunks.flatten ++ rest)
+      rw [← typeOf_eq t htt] at ht'
+      rw [List.append_assoc, hrd]
+      simp only [Res.bind, ht', bne_self_eq_false, Bool.false_eq_true, if_false]
       rw [decodeList_chunks strict t (norm t) (depth t) hgood f rest [] (by omega)]
       cases v <;> simp [elems, Vals.ofList]
   | .map k v, x => by
@@ -304,8 +306,10 @@ theorem accept_norm (strict : Bool) : (ty : Ty) → (v : Val) → Accepts strict
       obtain ⟨hdr, chunks, hh, hall2, rfl⟩ := hc
       have hh1 := ListHdr_length_pos hh
       simp only [List.length_append] at hf
-      rw [List.append_assoc, rList_ListHdr _ _ hlen hh, ← typeOf_eq k ht.1]
-      simp only [Res.bind, hntk, Bool.false_eq_true, if_false, bne_self_eq_false]
+      obtain ⟨t', hrd, ht'⟩ := rList_ListHdr _ _ hlen hh (chunks.flatten ++ rest)
+      rw [← typeOf_eq k ht.1] at ht'
+      rw [List.append_assoc, hrd]
+      simp only [Res.bind, ht', bne_self_eq_false, Bool.false_eq_true, if_false]
       cases ps with
       | nil =>
         rw [hall2.nil_left]
@@ -323,16 +327,18 @@ theorem accept_norm (strict : Bool) : (ty : Ty) → (v : Val) → Accepts strict
       obtain ⟨hdr, chunks, hh, hall2, rfl⟩ := hc
       have hh1 := MapHdr_length_pos hh
       simp only [List.length_append] at hf
-      rw [List.append_assoc, rMap_MapHdr _ _ _ hlen hh, ← typeOf_eq k ht.1, ← typeOf_eq v ht.2]
+      obtain ⟨k', v', hrd, hkv⟩ := rMap_MapHdr _ _ _ hlen hh (chunks.flatten ++ rest)
+      rw [← typeOf_eq k ht.1, ← typeOf_eq v ht.2] at hkv
+      rw [List.append_assoc, hrd]
       simp only [Res.bind]
       cases ps with
       | nil =>
         rw [hall2.nil_left]
         simp [flat_nil]
       | cons a l =>
-        have hne : ¬ ((a :: l).length = 0) := by simp
+        have hne : (a :: l).length ≠ 0 := by simp
         have hn0 : ((a :: l).length == 0) = false := by simp
-        simp only [hne, if_false, hn0, Bool.false_eq_true, bne_self_eq_false]
+        simp only [hn0, Bool.false_eq_true, if_false, (hkv hne).1, (hkv hne).2, bne_self_eq_false]
         have hgood : All2 (fun a c => ∃ ck cv, GoodChunk strict k (max (depth k) (depth v)) (norm k a.1) ck ∧
             GoodChunk strict v (max (depth k) (depth v)) (norm v a.2) cv ∧ c = ck ++ cv) (a :: l) chunks :=
           hall2.imp_mem fun b hb c hbc => by
